@@ -572,4 +572,92 @@ theorem defaultSessionProvider_flags (env : Env) (opts : Options) :
   simp only [Outcome.pure_eq_ok]
   by_cases hn : opts.CookieName = "" <;> simp [hn]
 
+/-! ### starting to track a request (request_tracker_cookie.go `CookieRequestTracker.TrackRequest`; the codec, the application's
+    `RelayStateFunc`, the request's URL and the fresh random index are arbitrary) -/
+
+/-- the request that is tracked for a flow: the SAML request ID handed in, the URL of *this* request, under the application's relay
+    state when it gives a non-empty one, else under the fresh random index -/
+def trackedFor (env : Env) (rq : HTTPRequest) (id : String) (relay : Option String) : TrackedRequest :=
+  { (default : TrackedRequest) with
+    Index := (match relay with | some s => if s = "" then env.randomIndex else s | none => env.randomIndex),
+    SAMLRequestID := id, URI := env.requestURL rq }
+
+/-- C17: tracking a request writes exactly one cookie — named prefix ++ index, HttpOnly, its value what the tracker's codec made of
+    the tracked request `trackedFor` (this request's URL, this SAML request ID) — and answers with that index; when the codec fails
+    nothing is set -/
+theorem trackRequest_cookie (env : Env) (t : CookieRequestTracker) (w : ResponseWriter) (rq : HTTPRequest) (id idx : String)
+    (e : GoError) (tr : List Event) (h : TrackRequest env t w (some rq) id = .ok ((idx, e), tr)) :
+    ∃ relay : Option String,
+      (match t.RelayStateFunc with
+       | some f => ∃ s, f w (some rq) = .ok s ∧ relay = some s
+       | none => relay = none) ∧
+      ∃ enc ee, t.Codec.Encode (trackedFor env rq id relay) = .ok (enc, ee) ∧
+        ((ee ≠ none ∧ e = ee ∧ idx = "" ∧ ¬ (∃ a, (⟨"http.SetCookie", a⟩ : Event) ∈ tr)) ∨
+         (ee = none ∧ e = none ∧ idx = (trackedFor env rq id relay).Index ∧
+            (⟨"http.SetCookie", ["Name=" ++ (t.NamePrefix ++ idx), "Value=" ++ enc, "HttpOnly=" ++ toString true]⟩ : Event) ∈ tr ∧
+            ∀ a, (⟨"http.SetCookie", a⟩ : Event) ∈ tr → a = ["Name=" ++ (t.NamePrefix ++ idx), "Value=" ++ enc, "HttpOnly=" ++ toString true])) := by
+  unfold TrackRequest at h
+  simp only [deref_some, Outcome.ok_bind', Outcome.pure_eq_ok] at h
+  cases hf : t.RelayStateFunc with
+  | none =>
+    refine ⟨none, by simp, ?_⟩
+    simp only [hf, Option.isSome_none, Bool.false_eq_true, if_false] at h
+    cases hen : t.Codec.Encode (trackedFor env rq id none) with
+    | err x => simp [trackedFor] at hen; simp [hen] at h
+    | panic x => simp [trackedFor] at hen; simp [hen] at h
+    | ok res =>
+      obtain ⟨enc, ee⟩ := res
+      refine ⟨enc, ee, rfl, ?_⟩
+      simp [trackedFor] at hen
+      simp only [hen, Outcome.ok_bind'] at h
+      cases ee with
+      | some x => simp at h; left; refine ⟨by simp, h.1.2.symm, h.1.1, ?_⟩; rw [h.2]; simp
+      | none =>
+        simp at h; right
+        refine ⟨rfl, h.1.2.symm, by rw [← h.1.1]; simp [trackedFor], ?_, ?_⟩
+        · rw [← h.2, ← h.1.1]; simp
+        · intro a ha; rw [← h.2] at ha; simp at ha; rw [ha, ← h.1.1]
+  | some f =>
+    simp only [hf, Option.isSome_some, if_true, deref_some, Outcome.ok_bind'] at h
+    cases hr : f w (some rq) with
+    | err x => simp [hr] at h
+    | panic x => simp [hr] at h
+    | ok s =>
+      refine ⟨some s, ⟨s, hr, rfl⟩, ?_⟩
+      simp only [hr, Outcome.ok_bind'] at h
+      by_cases hs : s = ""
+      · simp only [hs, bne_self_eq_false, Bool.false_eq_true, if_false] at h
+        cases hen : t.Codec.Encode (trackedFor env rq id (some s)) with
+        | err x => simp [trackedFor, hs] at hen; simp [hen] at h
+        | panic x => simp [trackedFor, hs] at hen; simp [hen] at h
+        | ok res =>
+          obtain ⟨enc, ee⟩ := res
+          refine ⟨enc, ee, rfl, ?_⟩
+          simp [trackedFor, hs] at hen
+          simp only [hen, Outcome.ok_bind'] at h
+          cases ee with
+          | some x => simp at h; left; refine ⟨by simp, h.1.2.symm, h.1.1, ?_⟩; rw [← h.2]; simp
+          | none =>
+            simp at h; right
+            refine ⟨rfl, h.1.2.symm, by rw [← h.1.1]; simp [trackedFor, hs], ?_, ?_⟩
+            · rw [← h.2, ← h.1.1]; simp
+            · intro a ha; rw [← h.2] at ha; simp at ha; rw [ha, ← h.1.1]
+      · have hne : (s != "") = true := by simpa using hs
+        simp only [hne, if_true] at h
+        cases hen : t.Codec.Encode (trackedFor env rq id (some s)) with
+        | err x => simp [trackedFor, hs] at hen; simp [hen] at h
+        | panic x => simp [trackedFor, hs] at hen; simp [hen] at h
+        | ok res =>
+          obtain ⟨enc, ee⟩ := res
+          refine ⟨enc, ee, rfl, ?_⟩
+          simp [trackedFor, hs] at hen
+          simp only [hen, Outcome.ok_bind'] at h
+          cases ee with
+          | some x => simp at h; left; refine ⟨by simp, h.1.2.symm, h.1.1, ?_⟩; rw [← h.2]; simp
+          | none =>
+            simp at h; right
+            refine ⟨rfl, h.1.2.symm, by rw [← h.1.1]; simp [trackedFor, hs], ?_, ?_⟩
+            · rw [← h.2, ← h.1.1]; simp
+            · intro a ha; rw [← h.2] at ha; simp at ha; rw [ha, ← h.1.1]
+
 end SamlVerif.TransMiddleware
